@@ -44,18 +44,36 @@ static const std::vector<std::string> kSpecialSegs = {"a:b", ":", "1:c", ":80", 
 
 static const char kMutBytes[] = "[]%:/?#@.\x80\xff \\^{}|\"<>`a1AfF~-_+;=&!$'()*,\x7f\x01";
 
+// long mode: one component is stretched far beyond anything the vocabulary holds (sizes just around 63/255/1024/4096 matter to
+// length arithmetic in int / unsigned char and to fixed thresholds a changed library might introduce)
+static std::string stretched(Rng& r, int flavour) {
+    static const int lens[] = {64, 100, 254, 255, 256, 300, 1023, 1024, 1025, 1500, 4100};
+    int n = lens[r.below(sizeof lens / sizeof lens[0])];
+    std::string s;
+    switch (flavour) {
+    case 0: for (int i = 0; i < n; i++) s += (char)('a' + (i * 7) % 26); break;                              // plain
+    case 1: for (int i = 0; i + 3 <= n; i += 3) s += (i % 9 == 0) ? "%7e" : (i % 9 == 3 ? "%C3" : "%a9"); break;   // percent triplets
+    case 2: for (int i = 0; i < n; i++) s += (i % 2) ? '.' : (char)('A' + i % 26); break;                      // labels / dots, upper case
+    default: for (int i = 0; i < n; i++) s += (char)('0' + i % 10); break;                                     // digits
+    }
+    return s;
+}
+
 std::string uri_text(Rng& r, const TextCfg& c) {
     std::string t;
     bool scheme = r.chance(520), auth = r.chance(400);
-    if (scheme) t += r.pick(kSchemes) + ":";
+    int stretch = c.long_mode ? r.range(0, 7) : -1;   // 0 user info, 1 host, 2 port, 3 one segment, 4 query, 5 fragment, 6 scheme, 7 many segments
+    if (stretch >= 0 && stretch <= 2) auth = true;
+    if (stretch == 6) scheme = true;
+    if (scheme) t += (stretch == 6 ? "x" + stretched(r, 0) : r.pick(kSchemes)) + ":";
     if (auth) {
         t += "//";
-        if (r.chance(300)) t += r.pick(kUser) + "@";
-        t += pick_host(r);
-        if (r.chance(300)) t += ":" + r.pick(kPorts);
+        if (stretch == 0) t += stretched(r, r.range(0, 1)) + "@"; else if (r.chance(300)) t += r.pick(kUser) + "@";
+        t += stretch == 1 ? stretched(r, r.range(0, 2)) : pick_host(r);
+        if (stretch == 2) t += ":" + stretched(r, 3); else if (r.chance(300)) t += ":" + r.pick(kPorts);
     }
     int nseg = r.chance(150) ? 0 : r.range(1, c.max_segs);
-    if (c.long_mode) nseg = r.range(1, c.max_segs * 8);
+    if (c.long_mode) nseg = stretch == 7 ? r.range(30, 120) : r.range(1, c.max_segs * 2);
     std::vector<std::string> segs;
     if (nseg && r.chance(140)) {
         // dot-cancel flavour: k ordinary segments, the dot segments that cancel them (sometimes one more or one fewer),
@@ -69,6 +87,7 @@ std::string uri_text(Rng& r, const TextCfg& c) {
         for (int i = 0; i < sp; i++) segs.push_back(r.pick(kSpecialSegs));
         if (r.chance(400)) segs.push_back(r.pick(kSegs));
     } else for (int i = 0; i < nseg; i++) segs.push_back(r.chance(60) ? r.pick(kSpecialSegs) : r.pick(kSegs));
+    if (stretch == 3) { if (segs.empty()) segs.push_back(""); segs[r.below((uint32_t)segs.size())] = stretched(r, r.range(0, 2)); }
     if (auth) {
         for (auto& sg : segs) t += "/" + sg;
     } else if (!segs.empty()) {
@@ -76,8 +95,8 @@ std::string uri_text(Rng& r, const TextCfg& c) {
         if (abs) t += "/";
         for (size_t i = 0; i < segs.size(); i++) { if (i) t += "/"; t += segs[i]; }
     }
-    if (r.chance(300)) t += "?" + r.pick(kQF);
-    if (r.chance(280)) t += "#" + r.pick(kQF);
+    if (stretch == 4) t += "?" + stretched(r, r.range(0, 1)); else if (r.chance(300)) t += "?" + r.pick(kQF);
+    if (stretch == 5) t += "#" + stretched(r, r.range(0, 1)); else if (r.chance(280)) t += "#" + r.pick(kQF);
     if (r.chance((uint32_t)c.mutate_per1024)) {
         int n = r.range(1, 3);
         for (int i = 0; i < n; i++) {
@@ -232,11 +251,12 @@ std::string query_string(Rng& r, int max_items) {
 
 void query_items(Rng& r, Op& mk, int max_items, int max_len) {
     int n = r.range(1, max_items);
+    if (r.chance(8)) n = r.range(20, 48);   // rarely: many items
     mk.keys.clear(); mk.values.clear(); mk.has_value.clear();
     for (int i = 0; i < n; i++) {
         auto mkstr = [&]() {
             std::string s; int parts = r.range(0, 3);
-            if (r.chance(12)) { int n = r.range(180, 420); for (int k = 0; k < n; k++) s += (char)('a' + k % 26); return s; }   // rarely: long, mostly unescaped text
+            if (r.chance(12)) { int n = r.chance(200) ? r.pick(std::vector<int>{255, 256, 1023, 1024, 1025, 1400}) : r.range(180, 420); for (int k = 0; k < n; k++) s += (k % 97 == 96) ? ' ' : (char)('a' + k % 26); return s; }   // rarely: long, mostly unescaped text
             for (int k = 0; k < parts; k++) {
                 if (r.chance(150)) s += (char)r.range(1, 255); else s += r.pick(kQParts);
             }
